@@ -28,6 +28,35 @@ class Rule:
         return new
 
 
+class CallRule:
+    """paren-aware rewrite of a call: `head(args...)` -> template with $1..$9 (arguments), $* (all arguments)
+    and \\1.. (groups of the head regex).  Operands are carried over untouched, whatever they are."""
+    def __init__(self, head, reps, kind='may', n=None, stage='pre', name=None):
+        self.head = head
+        self.reps = reps        # {argcount or '*': template}
+        self.kind, self.n, self.stage = kind, n, stage
+        self.name = name or head
+
+    def apply(self, text, log):
+        cnt = [0]
+        def fn(m, args):
+            tmpl = self.reps.get(len(args), self.reps.get('*'))
+            if tmpl is None:
+                return None
+            cnt[0] += 1
+            out = m.expand(tmpl) if '\\' in tmpl else tmpl
+            out = out.replace('$*', ', '.join(args))
+            for i in range(len(args), 0, -1):
+                out = out.replace('$%d' % i, args[i - 1])
+            return out
+        new = rewrite_calls(text, self.head + r'\s*\(', fn)
+        if self.kind == 'must' and cnt[0] != self.n:
+            raise ExtractionBreak("lowering call-rule %r expected %s matches, fired %d" % (self.name, self.n, cnt[0]))
+        if cnt[0]:
+            log.append({"rule": self.name, "fired": cnt[0]})
+        return new
+
+
 def _drop_statements(text, head_re, log, what):
     """remove whole statements starting with head_re( ... ); paren-aware."""
     out, pos, dropped = [], 0, []
@@ -212,6 +241,18 @@ def lower_casts(text):
         op = m.end() - 1
         cp = match_close(text, op, '(', ')')
         text = text[:m.start()] + '((%s)(%s))' % (INT_TYPES[norm_ws(m.group(1))], text[op + 1:cp]) + text[cp + 1:]
+    # named casts to byte/void pointers
+    pat = re.compile(r'\b(?:static_cast|reinterpret_cast|const_cast)\s*<\s*((?:unsigned\s+)?(?:char|void|std::uint8_t|uint8_t)(?:\s+const)?|const\s+(?:char|void))\s*\*\s*>\s*\(')
+    while True:
+        m = pat.search(text)
+        if not m:
+            break
+        op = m.end() - 1
+        cp = match_close(text, op, '(', ')')
+        base = m.group(1).replace('std::', '')
+        isconst = 'const' in base
+        base = base.replace('const', '').strip()
+        text = text[:m.start()] + '((%s%s *)(%s))' % ('const ' if isconst else '', base, text[op + 1:cp]) + text[cp + 1:]
     pat = re.compile(r'(?<![\w:.>])(%s)\s*\((?!\s*\))' % _ity)
     pos = 0
     while True:
